@@ -374,13 +374,22 @@ def r20c(run, cg):
                   "the memo fill", necessity="the scan result may predate a registration that has already reset the memo")
     reads = []
     for n in fa.cfg.nodes:
-        if n.ast is None or n.kind not in ("stmt", "test"):
+        if n.ast is None or n.kind not in ("stmt", "test", "iter"):
             continue
         if lexically_locked(res, n.ast if n.kind == "stmt" else n.stmt, cg.locks):
             continue
         txt = unparse(n.ast)
         if "self._cache" in txt:
             reads.append(n)
+        if "self._registry" in txt:
+            # the list is mutated in place under the lock (insert, sort): it may not be inspected without it
+            run.check("R20c", res, f"`{norm_stmt(n.stmt)[:50]}` does not look at the registration list without the lock",
+                      False, construct="lock-free read of the registration list",
+                      message=f"`{norm_stmt(n.stmt)}` reads self._registry outside the lock under which register() "
+                              f"inserts and sorts it in place",
+                      necessity="list.sort empties the list while it runs (the key is a Python lambda, so other threads "
+                                "get scheduled): a lookup during a registration sees an empty registry and answers "
+                                "'no converter' for a type that has one", node=n.ast)
     for n in reads:
         txt = unparse(n.ast)
         atomic = txt.count("self._cache") == 1 and ("self._cache.get(" in txt) and " in self._cache" not in txt
